@@ -3,6 +3,7 @@ import PnaVerif.Model.Crc32
 import PnaVerif.Model.Chunk
 import PnaVerif.Model.Canon
 import PnaVerif.Model.Toy
+import PnaVerif.Model.Pipeline
 /-
   Line-protocol driver: one request per line on stdin, one canonical answer per line on stdout.
   Imports model files only (no Mathlib) so that it links as a native executable.
@@ -63,6 +64,28 @@ def parseNatList (s : String) : Option (List Nat) :=
 
 def bytesListS (l : List Bytes) : String :=
   if l.isEmpty then "." else ",".intercalate (l.map toHexW)
+
+def parseErr (s : String) : Option Err :=
+  match s with
+  | "eof" => some .eof | "invalidData" => some .invalidData | "invalidInput" => some .invalidInput
+  | "unsupported" => some .unsupported | "alreadyExists" => some .alreadyExists
+  | "notFound" => some .notFound | "other" => some .other | _ => none
+
+/-- oracle answer on the wire: `ok:<hex>` | `err:<kind>` | `na` (never consulted) -/
+def parseOracle (s : String) : Option (Outcome Bytes) :=
+  if s == "na" then some (.panic "oracle not supplied")
+  else match s.splitOn ":" with
+    | ["ok", h] => (ofHex h).map .ok
+    | ["err", k] => (parseErr k).map .error
+    | _ => none
+
+def parsePhc (s : String) : Option PhcOracle :=
+  match s.splitOn "," with
+  | [p, a, po, hs, ho, k] =>
+    let alg := if a == "argon2" then PhcAlg.argon2 else if a == "pbkdf2" then PhcAlg.pbkdf2 else PhcAlg.other
+    let key := if k == "none" then some none else (ofHex k).map some
+    key.map fun key => ⟨p == "1", alg, po == "1", hs == "1", ho == "1", key⟩
+  | _ => none
 
 def handle (line : String) : String :=
   match line.trimAscii.toString.splitOn " " with
@@ -157,6 +180,12 @@ def handle (line : String) : String :=
     | some k, some iv, some ct, some cuts, some sched =>
       "ok " ++ bytesListS (CtrR.run Toy.perm k iv ⟨ct, 0⟩ sched cuts)
     | _, _, _, _, _ => "bad-op"
+  | ["entry.open", enc, mode, hasPhsf, hasPw, phc, sl, dec, decomp] =>
+    match enc.toNat?, mode.toNat?, parsePhc phc, parseBytesList sl, parseOracle dec, parseOracle decomp with
+    | some enc, some mode, some phc, some sl, some dec, some decomp =>
+      outcomeS toHexW (openEntryData enc mode (if hasPhsf == "1" then some [] else none)
+        (if hasPw == "1" then some [] else none) phc sl (fun _ _ _ => dec) (fun _ => decomp))
+    | _, _, _, _, _, _ => "bad-op"
   | ["archive.read.stream", h] =>
     match ofHex h with
     | some b => Canon.readS (readArchiveStream b)
